@@ -11,6 +11,8 @@
 -/
 import Cel.Lemmas.Num
 import Cel.Bridge.Num
+import Cel.Model.Num2
+import Cel.Bridge.NumD
 namespace Cel.Props.C01
 open Cel
 
@@ -283,5 +285,220 @@ theorem evalA_spec : (e : AExpr) → leavesI64 e →
 /-- non-vacuity: `- - MIN` is an error at the inner node, not MIN -/
 example : specA (.neg (.neg (.lit (-(2^63))))) = none := by
   simp [specA, ochecked, i64]
+
+end Cel.Props.C01
+
+namespace Cel.Props.C01
+open Cel
+
+/-! #### round 2: uint64 expression trees -/
+def uochecked (z : Int) : Option Int := if u64 z then some z else none
+/-- exact mathematics on naturals with a range check at every node -/
+def exactUOp : AOp → Int → Int → Option Int
+  | .add, x, y => uochecked (x + y)
+  | .sub, x, y => uochecked (x - y)
+  | .mul, x, y => uochecked (x * y)
+  | .div, x, y => if y = 0 then none else some (x.tdiv y)
+  | .mod, x, y => if y = 0 then none else some (x.tmod y)
+def specU : AExpr → Option Int
+  | .lit z => some z
+  | .neg _ => none
+  | .bin op a b => (specU a).bind fun x => (specU b).bind fun y => exactUOp op x y
+def leavesU64 : AExpr → Prop
+  | .lit z => u64 z
+  | .neg a => leavesU64 a
+  | .bin _ a b => leavesU64 a ∧ leavesU64 b
+
+theorem uchecked_toOption (z : Int) : (uchecked z).toOption = uochecked z := by
+  unfold uchecked uochecked; split <;> rfl
+theorem uochecked_u64 {z r : Int} (h : uochecked z = some r) : u64 r := by
+  unfold uochecked at h; split at h <;> simp_all
+
+theorem ubin_spec (op : AOp) (x y : Int) (hx : u64 x) (hy : u64 y) :
+    (UintOps.bin op x y).toOption = exactUOp op x y := by
+  cases op <;> simp only [UintOps.bin, exactUOp]
+  · rw [uint_add_exact, uchecked_toOption]
+  · rw [uint_sub_exact, uchecked_toOption]
+  · rw [uint_mul_exact, uchecked_toOption]
+  · rw [uint_div_exact x y hx hy]; split <;> rfl
+  · rw [uint_mod_exact x y hx hy]; split <;> rfl
+
+theorem exactUOp_u64 (op : AOp) (x y r : Int) (hx : u64 x) (hy : u64 y) (h : exactUOp op x y = some r) : u64 r := by
+  cases op <;> simp only [exactUOp] at h
+  · exact uochecked_u64 h
+  · exact uochecked_u64 h
+  · exact uochecked_u64 h
+  · split at h
+    · simp at h
+    · rename_i hy0; simp at h; subst h
+      unfold u64 at *
+      have h1 : x.tdiv y = x / y := Int.tdiv_eq_ediv_of_nonneg hx.1
+      have h2 : 0 ≤ x / y := Int.ediv_nonneg hx.1 hy.1
+      have h3 : x / y ≤ x := Int.ediv_le_self y hx.1
+      omega
+  · split at h
+    · simp at h
+    · rename_i hy0; simp at h; subst h
+      unfold u64 at *
+      rw [Int.tmod_eq_emod_of_nonneg hx.1]
+      have h1 : 0 ≤ x % y := Int.emod_nonneg x hy0
+      have h2 : x % y < y := Int.emod_lt_of_pos x (by omega)
+      omega
+
+/-- **Every arithmetic expression over uint64 leaves** evaluates to the exact result if every intermediate
+result fits [0, 2^64) and to an error otherwise (unary minus: always an error) — all trees, any depth. -/
+theorem evalU_spec : (e : AExpr) → leavesU64 e →
+    (evalU e).toOption = specU e ∧ (∀ r, specU e = some r → u64 r)
+  | .lit z, h => ⟨rfl, fun r hr => by simp [specU] at hr; subst hr; exact h⟩
+  | .neg a, _ => by
+      simp only [evalU, specU]
+      refine ⟨?_, fun r hr => by simp at hr⟩
+      cases evalU a <;> rfl
+  | .bin op a b, h => by
+      have iha := evalU_spec a h.1
+      have ihb := evalU_spec b h.2
+      simp only [evalU, specU]
+      cases hsa : specU a with
+      | none =>
+        obtain ⟨c, hc⟩ := toOption_none (iha.1.trans hsa)
+        rw [hc]; exact ⟨rfl, fun r hr => by simp at hr⟩
+      | some x =>
+        rw [toOption_some (iha.1.trans hsa)]
+        cases hsb : specU b with
+        | none =>
+          obtain ⟨c, hc⟩ := toOption_none (ihb.1.trans hsb)
+          rw [hc]; exact ⟨rfl, fun r hr => by simp at hr⟩
+        | some y =>
+          rw [toOption_some (ihb.1.trans hsb)]
+          have hx64 : u64 x := iha.2 x hsa
+          have hy64 : u64 y := ihb.2 y hsb
+          exact ⟨ubin_spec op _ _ hx64 hy64, fun r hr => exactUOp_u64 op _ _ r hx64 hy64 hr⟩
+
+/-- non-vacuity: `0u - 1u` inside a product is an error, `(2^64-1) / 3` is exact -/
+example : specU (.bin .mul (.bin .sub (.lit 0) (.lit 1)) (.lit 0)) = none := by
+  simp [specU, exactUOp, uochecked, u64]
+example : specU (.bin .div (.lit (2^64 - 1)) (.lit 3)) = some 6148914691236517205 := by
+  simp [specU, exactUOp]
+
+/-- a uint result is never wrapped (no modular arithmetic): `0u - 1u` is not 2^64-1 -/
+theorem uint_never_wraps (a b r : Int) (ha : u64 a) (hb : u64 b) :
+    (UintOps.add a b = .ok r → u64 r ∧ r = a + b) ∧
+    (UintOps.sub a b = .ok r → u64 r ∧ r = a - b) ∧
+    (UintOps.mul a b = .ok r → u64 r ∧ r = a * b) ∧
+    (UintOps.truediv a b = .ok r → u64 r ∧ r = a.tdiv b ∧ b ≠ 0) ∧
+    (UintOps.mod a b = .ok r → u64 r ∧ r = a.tmod b ∧ b ≠ 0) := by
+  refine ⟨?_, ?_, ?_, ?_, ?_⟩
+  · rw [uint_add_exact]; unfold uchecked; split <;> intro h <;> simp_all <;> (subst h; assumption)
+  · rw [uint_sub_exact]; unfold uchecked; split <;> intro h <;> simp_all <;> (subst h; assumption)
+  · rw [uint_mul_exact]; unfold uchecked; split <;> intro h <;> simp_all <;> (subst h; assumption)
+  · rw [uint_div_exact a b ha hb]
+    by_cases hb0 : b = 0
+    · simp [hb0]
+    · rw [if_neg hb0]; intro h; cases h
+      exact ⟨exactUOp_u64 .div a b _ ha hb (by simp [exactUOp, hb0]), rfl, hb0⟩
+  · rw [uint_mod_exact a b ha hb]
+    by_cases hb0 : b = 0
+    · simp [hb0]
+    · rw [if_neg hb0]; intro h; cases h
+      exact ⟨exactUOp_u64 .mod a b _ ha hb (by simp [exactUOp, hb0]), rfl, hb0⟩
+
+/-- the remainder clause missing from `int_never_wraps` -/
+theorem int_mod_never_wraps (a b r : Int) (hb : i64 b) :
+    IntOps.mod a b = .ok r → i64 r ∧ r = a.tmod b ∧ b ≠ 0 := by
+  rw [int_mod_exact a b hb]
+  by_cases hb0 : b = 0
+  · simp [hb0]
+  · rw [if_neg hb0]; intro h; cases h; exact ⟨tmod_i64 a b hb hb0, rfl, hb0⟩
+
+/-- every exception class a UintType dunder can raise is turned into an evaluation error by the
+interpreter's rule and by `result()` (handler lists regenerated from evaluation.py) -/
+theorem uchecked_error {z : Int} {c : Exc} (h : uchecked z = .error c) : c = .valueError := by
+  unfold uchecked at h; split at h <;> simp_all
+theorem uint_errors_become_eval_errors (a b : Int) (ha : u64 a) (hb : u64 b) (c : Exc) :
+    (UintOps.add a b = .error c → c ∈ Gen.handlers_addition ∧ c ∈ Gen.resultCaughtNum) ∧
+    (UintOps.sub a b = .error c → c ∈ Gen.handlers_addition ∧ c ∈ Gen.resultCaughtNum) ∧
+    (UintOps.mul a b = .error c → c ∈ Gen.handlers_multiplication ∧ c ∈ Gen.resultCaughtNum) ∧
+    (UintOps.truediv a b = .error c → c ∈ Gen.handlers_multiplication ∧ c ∈ Gen.resultCaughtNum) ∧
+    (UintOps.mod a b = .error c → c ∈ Gen.handlers_multiplication ∧ c ∈ Gen.resultCaughtNum) ∧
+    (UintOps.neg a = .error c → c ∈ Gen.handlers_unary ∧ c ∈ Gen.resultCaughtNum) := by
+  refine ⟨?_, ?_, ?_, ?_, ?_, ?_⟩
+  · rw [uint_add_exact]; intro h; rw [uchecked_error h]; decide
+  · rw [uint_sub_exact]; intro h; rw [uchecked_error h]; decide
+  · rw [uint_mul_exact]; intro h; rw [uchecked_error h]; decide
+  · rw [uint_div_exact a b ha hb]; split
+    · intro h; cases h; decide
+    · intro h; cases h
+  · rw [uint_mod_exact a b ha hb]; split
+    · intro h; cases h; decide
+    · intro h; cases h
+  · intro h; cases h; decide
+
+
+/-! #### round 2: doubles — every DoubleType operator IS the host's binary64 operation on the same operands
+(no re-rounding, clamping, sign change or operand swap), for EVERY host float structure `H` (nothing about
+IEEE-754 is assumed of it: the host's arithmetic itself stays in the trusted base and is compared bit-for-bit
+by the correspondence run), and division tests the divisor against zero first. -/
+section Doubles
+variable {F : Type} (H : HostFloat F)
+
+theorem dbl_ops_are_host_ops (x y : F) :
+    DoubleOps.neg H x = H.neg x ∧
+    DoubleOps.add H x y = H.add x y ∧ DoubleOps.sub H x y = H.sub x y ∧ DoubleOps.mul H x y = H.mul x y ∧
+    DoubleOps.radd H y x = H.add x y ∧ DoubleOps.rsub H y x = H.sub x y ∧ DoubleOps.rmul H y x = H.mul x y :=
+  ⟨rfl, rfl, rfl, rfl, rfl, rfl, rfl⟩
+
+/-- `x / y` as the property states it: the IEEE zero-divisor rule when `y` is a zero of either sign
+(`H.divZero`, whose class-level content is `dbl_div_zero_ieee`), the host's division otherwise -/
+def ieeeDiv (x y : F) : F := if H.isZero y then H.divZero x y else H.div x y
+
+theorem dbl_div_spec (x y : F) :
+    DoubleOps.truediv H x y = ieeeDiv H x y ∧ DoubleOps.rtruediv H y x = ieeeDiv H x y := ⟨rfl, rfl⟩
+
+/-- the host's division is never reached with a zero divisor (Python would raise ZeroDivisionError there) -/
+theorem dbl_div_guarded (x y : F) (h : H.isZero y = true) :
+    DoubleOps.truediv H x y = H.divZero x y ∧ DoubleOps.rtruediv H y x = H.divZero x y := by
+  simp [DoubleOps.truediv, DoubleOps.rtruediv, DoubleOps.wrap, h]
+
+/-- the same statements about the definitions REGENERATED from celtypes.py (through `Cel.Bridge.NumD`) -/
+theorem dbl_source_ops_are_host_ops (x y : F) :
+    Gen.DoubleType.neg H x = H.neg x ∧
+    Gen.DoubleType.add H x y = H.add x y ∧ Gen.DoubleType.sub H x y = H.sub x y ∧
+    Gen.DoubleType.mul H x y = H.mul x y ∧ Gen.DoubleType.truediv H x y = ieeeDiv H x y ∧
+    Gen.DoubleType.radd H y x = H.add x y ∧ Gen.DoubleType.rsub H y x = H.sub x y ∧
+    Gen.DoubleType.rmul H y x = H.mul x y ∧ Gen.DoubleType.rtruediv H y x = ieeeDiv H x y := by
+  rw [Bridge.dbl_neg, Bridge.dbl_add, Bridge.dbl_sub, Bridge.dbl_mul, Bridge.dbl_truediv, Bridge.dbl_radd,
+    Bridge.dbl_rsub, Bridge.dbl_rmul, Bridge.dbl_rtruediv]
+  exact ⟨rfl, rfl, rfl, rfl, rfl, rfl, rfl, rfl, rfl⟩
+
+/-- IEEE evaluation of a double expression: host operations at every node, the zero rule at every division -/
+def specD : DExpr F → F
+  | .lit x => x
+  | .neg a => H.neg (specD a)
+  | .bin .add a b => H.add (specD a) (specD b)
+  | .bin .sub a b => H.sub (specD a) (specD b)
+  | .bin .mul a b => H.mul (specD a) (specD b)
+  | .bin .div a b => ieeeDiv H (specD a) (specD b)
+
+/-- **every double expression tree**: both runners compute exactly the host/IEEE value, at any depth;
+in particular no intermediate result (a negative zero, an infinity, a NaN) is altered on the way -/
+theorem evalD_spec : (e : DExpr F) → evalD H e = specD H e
+  | .lit _ => rfl
+  | .neg a => by simp only [evalD, specD, evalD_spec a]; rfl
+  | .bin op a b => by
+      cases op <;> simp only [evalD, specD, evalD_spec a, evalD_spec b] <;> rfl
+end Doubles
+
+/-- non-vacuity on a concrete (toy) host with a signed zero, where `1 / -(0)` must be `-inf`
+(encoding: 0 = +0, 1 = -0, 2 = +inf, 3 = -inf, 4 = one) -/
+def toyHost : HostFloat Nat where
+  neg := fun x => if x = 0 then 1 else if x = 1 then 0 else x
+  add := fun x y => x + y
+  sub := fun x y => x - y
+  mul := fun x y => x * y
+  div := fun x y => x / y
+  isZero := fun x => decide (x ≤ 1)
+  divZero := fun _ z => if z = 1 then 3 else 2
+example : evalD toyHost (.bin .div (.lit 4) (.neg (.lit 0))) = 3 := by decide
+example : evalD toyHost (.bin .div (.lit 4) (.lit 0)) = 2 := by decide
 
 end Cel.Props.C01
